@@ -2,8 +2,8 @@ SPECIFICATION Spec
 CONSTANTS
   MaxRules = 3
   Ops <- AllOps
-  DayPatterns <- PatternsStd
+  DayPatterns <- PatternsConst
   WrongBase = FALSE
-  SpanShapes = {1, 3, 4, 6}
-INVARIANTS Agree FoldValid FoldComments
+  SpanShapes = {1, 3, 4}
+INVARIANTS ConstantNeverWithFallback
 CHECK_DEADLOCK FALSE
